@@ -617,6 +617,19 @@ pub fn check(rep: &Report) {
             dl.push(Case::Raw { entry: 2, data: m.clone() });
             dl.push(Case::Raw { entry: 1, data: m });
         }
+        // the same for TSRequests short enough that every enclosing element uses the short length form (a guard that only looks
+        // below long-form parents is not exercised by the full-size messages above)
+        let small2 = ntlm::build_ts_request(2, Some(&[0x4E, 0x54, 0x4C, 0x4D]), None, None, LenForm::Minimal);
+        let small4 = ntlm::build_ts_request(2, None, None, Some(&[1, 0, 0, 0, 0, 0, 0, 0, 0, 0, 0, 0, 0, 0, 0, 0, 0xAA, 0xBB]), LenForm::Minimal);
+        let small_both = ntlm::build_ts_request(3, Some(&[0x4E; 40]), None, Some(&[0x55; 40]), LenForm::Minimal);
+        for base in [&small2, &small4, &small_both] {
+            assert!(base.len() < 128 + 2, "small TSRequest bases must keep the short length form");
+            for m in refimpl::wire::der_length_mutations(base, 0) {
+                dl.push(Case::Raw { entry: 1, data: m.clone() });
+                dl.push(Case::Raw { entry: 2, data: m.clone() });
+                dl.push(Case::Stream { data: m, schedule: vec![] });
+            }
+        }
         rep.list("der-length-forms", dl, run);
     }
     // TSRequests of every protocol version with each optional field [1]..[6] present as INTEGER, OCTET STRING or nested
